@@ -1363,11 +1363,30 @@ class Interp:
         def b_print(*a, **k):
             return None
 
+        def b_divmod(a, b_):
+            # Python semantics: floor division and the matching remainder (z3's integer div/mod agree for a positive divisor;
+            # the symbolic values are kept as SV so that // and % go through the same operators as in source code)
+            return (a // b_, a % b_)
+
+        def b_sorted(s, key=None, reverse=False):
+            if isinstance(s, (list, tuple)) and all(isinstance(x, (int, float, str)) for x in s):
+                return sorted(s, key=key, reverse=reverse)
+            raise Untranslatable("sorted() of symbolic values")
+
+        def b_map(f, *seqs):
+            return [it.apply(f, list(a), {}) for a in zip(*[list(it.iterate(q)) for q in seqs])]
+
+        def b_filter(f, seq):
+            return [x for x in it.iterate(seq) if it.truth(it.apply(f, [x], {}) if f is not None else x)]
+
+        def b_pow(a, b_, *m):
+            return a ** b_
+
         builtin_types = {b_tuple: tuple, b_list: list, b_int: int, b_float: float, b_bool: bool}
         b = dict(len=b_len, isinstance=b_isinstance, range=b_range, zip=b_zip, reversed=b_reversed, enumerate=b_enumerate, tuple=b_tuple,
                  list=b_list, all=b_all, any=b_any, sum=b_sum, min=b_min, max=b_max, float=b_float, int=b_int, bool=b_bool, round=b_round,
                  abs=b_abs, callable=b_callable, type=b_type, hasattr=b_hasattr, getattr=b_getattr, setattr=b_setattr, print=b_print,
-                 str=str, dict=dict, set=set, frozenset=frozenset, slice=slice, object=object, repr=repr, id=id,
+                 str=str, dict=dict, set=set, divmod=b_divmod, sorted=b_sorted, map=b_map, filter=b_filter, pow=b_pow, frozenset=frozenset, slice=slice, object=object, repr=repr, id=id,
                  ValueError="ValueError", TypeError="TypeError", NotImplementedError="NotImplementedError", AssertionError="AssertionError",
                  RuntimeError="RuntimeError", KeyError="KeyError", IndexError="IndexError", Exception="Exception",
                  True_=True, None_=None, NotImplemented=NotImplemented, Ellipsis=Ellipsis)
